@@ -493,4 +493,100 @@ def runHistory (calls : List Call) : List (Except Err Unit) :=
 
 end Verify
 
+/-! ### the glue around GPG: get_public_key (138-154), execute_verification (213-245), __main__.py -/
+
+/-- what `get_public_key` sees: is `PUBLIC_KEY_PATH` truthy (the key file shipped with the egg was found
+and is not empty), and `import_results.count` as GPG answered it -/
+structure Key where
+  present : Bool
+  count : Int
+deriving Repr, DecidableEq
+
+/-- `get_public_key` does not raise: `PUBLIC_KEY_PATH` truthy and not `import_results.count < 1` -/
+def keyOk (k : Key) : Bool := k.present && decide (1 ≤ k.count)
+
+section Glue
+variable {D : Type} [DecidableEq D]
+variable (H : Str → D) (sigDecodes : PVal → Bool) (sigValid : D → PVal → Bool) (hashOf : PVal → Option D)
+
+/-- `verify_play` + `execute_verification` with the key import as it is written: serialise, hash,
+`base64.b64decode` (may raise), THEN `get_public_key` (verification error), then `gpg.verify_data` -/
+def verifyPlayFullK (k : Key) (play : Play) : Except Err (Bool × D) :=
+  match verifyPlay play with
+  | .error e => .error e
+  | .ok (text, sig) =>
+    if sigDecodes sig then
+      if keyOk k then .ok (sigValid (H text) sig, H text) else .error .verr
+    else .error .crash
+
+def revocationListK (k : Key) (rplay : Play) : Except Err (Option (List PVal)) :=
+  match verifyPlayFullK H sigDecodes sigValid k rplay with
+  | .error e => .error e
+  | .ok (valid, _) =>
+    if valid then
+      match lookupStr sRevoked rplay with
+      | none => .ok (some [])
+      | some (.seq items) => .ok (some items)
+      | some (.map kvs) => .ok (some (kvs.map (fun kv => .sc kv.1)))
+      | some (.sc (.str s)) => .ok (some (s.map (fun c => .sc (.str [c]))))
+      | some (.sc _) => .ok none
+    else .error .verr
+
+/-- `verify(play)` with the key import -/
+def verifyK (k : Key) (rplay : Play) (play : Play) : Except Err Unit :=
+  if play.isEmpty then .error .verr else
+  match revocationListK H sigDecodes sigValid k rplay with
+  | .error e => .error e
+  | .ok revoked =>
+    match verifyPlayFullK H sigDecodes sigValid k play with
+    | .error e => .error e
+    | .ok (valid, d) =>
+      if valid then
+        match revoked with
+        | some items => revokedLoop hashOf d items
+        | none => .error .crash
+      else .error .verr
+/-- what `get_play_revocation_list` gets out of the YAML of the revocation list: nothing usable (the text does not
+load, or the loaded value has no `[0]`: empty, a mapping, a scalar — all inside the `try`), a first entry that is not
+a mapping (`verify_play` calls `.get` on it, outside the `try`), or a play -/
+inductive RDoc where
+  | unloadable
+  | notMapping
+  | play (p : Play)
+deriving Repr
+
+/-- `verify(play)` from the revocation list's text on -/
+def verifyDoc (k : Key) (rdoc : RDoc) (play : Play) : Except Err Unit :=
+  if play.isEmpty then .error .verr else
+  match rdoc with
+  | .unloadable => .error .verr
+  | .notMapping => .error .crash
+  | .play r => verifyK H sigDecodes sigValid hashOf k r play
+end Glue
+
+/-- how `python -m …playbook_verifier` ends: exit 0, exit `sig_kill_bad` with the error's message, or a traceback -/
+inductive Exit where
+  | ok
+  | bad
+  | crash
+deriving DecidableEq, Repr
+
+/-- `for play in plays: verify(play)` over the answers of `verify` for the top-level entries in order
+(`none` = an entry that is not a mapping: `play.get` raises AttributeError): the first answer that is
+not `ok` ends the process -/
+def mainLoop : List (Option (Except Err Unit)) → Exit
+  | [] => .ok
+  | none :: _ => .crash
+  | some (.ok ()) :: r => mainLoop r
+  | some (.error .verr) :: _ => .bad
+  | some (.error .crash) :: _ => .crash
+
+/-- `__main__`: `skip` = the environment has a non-empty SKIP_VERIFY; `doc` = the top-level entries of the
+loaded text (`none`: `load_playbook_yaml` raised its verification error).  Answer: (exit, is the playbook printed) -/
+def mainRun (skip : Bool) (doc : Option (List (Option (Except Err Unit)))) : Exit × Bool :=
+  if skip then (.ok, true)
+  else match doc with
+    | none => (.bad, false)
+    | some es => (mainLoop es, mainLoop es == .ok)
+
 end IV.Playbook
